@@ -10,22 +10,22 @@ import py2v_stats
 
 CONFIG = {
     "cone": ["Base/ListUtil.v", "Base/QUtil.v", "Base/FirstArgmax.v", "Model/Store.v", "Proofs/StoreProofs.v", "Model/Archive.v",
-             "Proofs/ArchiveProofs.v", "Proofs/C01Proofs.v", "Proofs/C02Proofs.v", "Proofs/C06Proofs.v", "Generated/StatsGen.v", "Refine/StatsRefine.v", "Properties/C06.v"],
+             "Proofs/ArchiveProofs.v", "Proofs/C01Proofs.v", "Proofs/C02Proofs.v", "Proofs/C06Proofs.v", "Model/Cqd.v", "Proofs/CqdProofs.v", "Generated/StatsGen.v", "Refine/StatsRefine.v", "Properties/C06.v"],
     "extra_property_files": ["Refine/StatsRefine.v"],
     "trusted": ["harness/py2v_stats.py: fail-closed ast translator of ArchiveBase._stats_update and of the objective-sum expression of "
                 "compute_objective_sum into Generated/StatsGen.v on every run; Refine/StatsRefine.v proves them equal to the model for all arguments",
                 "Model/Archive.v (see C01)",
                 "floating point: exact-arithmetic theorems; an exact stream (dyadic objectives/offsets so that every sum is exact) is compared "
                 "bit for bit over whole histories, CMA-MAE and moderate floats step-wise within a few ulp of the summed magnitudes",
-                "ProximityArchive's coverage=1 / cells=len convention and remaps are exercised by the C14 / C15 checks; cqd_score is checked "
-                "by the harness against its formula evaluated with Fractions on data() (not modelled in Coq)"],
+                "ProximityArchive's coverage=1 / cells=len convention and remaps are exercised by the C14 / C15 checks; cqd_score: Model/Cqd.v is its defining formula over data(); the harness runs the extracted model (L1 distance, shuffled elites) and a "
+                "Fraction evaluation against the real cqd_score on dyadic inputs"],
     "level_text": "Theorems C06_stats_invariant (for every history: incremental objective sum == sum recomputed over contents, num_elites = len, "
                   "coverage, qd_score = sum - len*offset, norm_qd_score, obj_mean), C06_qd_score (= sum over current elites of objective - "
                   "offset), C06_num_elites (= number of occupied cells), C06_best_invariant (obj_max = highest objective written since the "
                   "last clear, best_elite a complete written row with it; ghost list of writes), C06_elitist_max (current maximum / current "
                   "elite in elitist archives), C06_noop_calls, C06_clear_resets. Default and CMA-MAE settings, replacements that lower a "
                   "cell's objective included.",
-    "level_note": "Trusted: Coq kernel; extraction + driver; model tied by sampling; harness. No axioms. cqd_score: harness-level only.",
+    "level_note": "Trusted: Coq kernel; extraction + driver; model tied by sampling; harness. No axioms. cqd_score: model = the formula; theorems C06_cqd_* (order / stale-slot independence, per-target maximum, definedness).",
     "technique": "source-derived fragments (py2v translator + refinement lemmas) + Rocq/Coq invariant proof (sum under pointwise update at distinct keys, ghost write list) + correspondence run",
     "design_ref": "DESIGN.md section 5, C06",
 }
@@ -81,7 +81,7 @@ def oracle(spec, ops):
     return None
 
 
-def cqd_check(rng, spec, ops):
+def cqd_check(rng, spec, ops, driver=None):
     """cqd_score against its formula on the current elites, exact arithmetic (dist_ord=1, dyadic inputs)."""
     trace, mops, archive, table = au.run_impl(spec, ops, obs=False)
     d = archive.data()
@@ -112,6 +112,18 @@ def cqd_check(rng, spec, ops):
     got = au.F(res.mean)
     if isinstance(got, float) or abs(got - exp) > Fraction(1, 10 ** 9) * (abs(exp) + 1):
         return "cqd_score.mean = %r but the formula on the current elites gives %r" % (float(res.mean), float(exp))
+    if driver is not None:
+        # the extracted Coq model (Model/Cqd.v with the L1 distance), on the elites data() lists, shuffled: C06_cqd_only_current_elites
+        order = list(range(n))
+        rng.shuffle(order)
+        mo = driver.call("CQD", [[Fraction(-4), Fraction(4), Fraction(8)], [[objs[k], meas[k]] for k in order], [au.F(p) for p in pens],
+                                 [[[au.F(x) for x in t] for t in tp[it]] for it in range(iters)]])
+        if not mo[0] or au.uq(mo[0][0]) != exp:
+            return "the Coq model of cqd_score gives %s, the formula in Python %r" % (mo[0], float(exp))
+        mscores = [au.uq(x[0]) for x in mo[1]]
+        iscores = [au.F(x) for x in res.scores]
+        if any(isinstance(b, float) or abs(a - b) > Fraction(1, 10 ** 9) * (abs(a) + 1) for a, b in zip(mscores, iscores)) or len(mscores) != len(iscores):
+            return "cqd_score.scores = %s but the model gives %s" % ([float(x) for x in res.scores], [float(x) for x in mscores])
     d2 = archive.data()
     for k, v in snap.items():
         if not np.array_equal(v, d2[k]):
@@ -174,7 +186,7 @@ def check(rep, tier, seed, driver):
         if spec.get("lr") not in (None, 0.0, 0.5, 1.0):
             spec["lr"] = 0.5
         try:
-            e = cqd_check(random.Random(rng.randrange(1 << 30)), spec, ops)
+            e = cqd_check(random.Random(rng.randrange(1 << 30)), spec, ops, driver)
         except Exception as ex:  # noqa
             e = None
             rep.count("cqd_harness_skip")
